@@ -848,3 +848,110 @@ def _pattern_level(m, f: FuncInfo, cls, e: ast.AST, aparam: str, du=None, seen=N
             if r[0] == "PATTERN":
                 worst = r
     return worst
+
+
+# ------------------------------------------------------------------------------------------------ return shape
+def _ndim1_test(test: ast.AST) -> Optional[Tuple[str, bool]]:
+    """(array name, polarity): test is true iff <name>.ndim == 1 (polarity True) / != 1 or > 1 (False)."""
+    if isinstance(test, ast.Compare) and len(test.ops) == 1 and isinstance(test.left, ast.Attribute) and \
+            test.left.attr == "ndim" and isinstance(test.left.value, ast.Name) and isinstance(test.comparators[0], ast.Constant):
+        c = test.comparators[0].value
+        op = test.ops[0]
+        if c == 1 and isinstance(op, ast.Eq):
+            return test.left.value.id, True
+        if (c == 1 and isinstance(op, (ast.NotEq, ast.Gt))) or (c == 2 and isinstance(op, (ast.Eq, ast.GtE))):
+            return test.left.value.id, False
+    return None
+
+
+@rule("R-RET-SHAPE", floor=2)
+def r_ret_shape(ctx: RuleCtx, col: Collector):
+    """solve() returns x in the shape of b: a solver (or helper) that lifts a 1-D right-hand side to a column under an
+    `rhs.ndim == 1` test must undo the lift on every return under the same test (flatten / ravel / [:, 0])."""
+    m = ctx.model
+    funcs = [f for _, f in solver_methods(ctx, "solve")]
+    try:
+        funcs.append(_db_calls(ctx)[3][0][1])
+    except AnalysisError:
+        pass
+    seen = set()
+    for f in funcs:
+        if f.qual in seen:
+            continue
+        seen.add(f.qual)
+        cfg = ctx.flow.cfg(f)
+        params = set(f.pos_params())
+        lifted: Dict[str, str] = {}       # local holding the lifted array -> the parameter it was lifted from
+        for nd in cfg.simple_nodes():
+            if nd.kind != STMT or not isinstance(nd.ast, ast.Assign) or not isinstance(nd.ast.targets[0], ast.Name):
+                continue
+            facts = dict(guard_facts(cfg, nd))
+            for t, pol in list(facts.items()):
+                pass
+            # find an enclosing ndim==1 test on a parameter
+            p = getattr(nd.ast, "_parent", None)
+            while p is not None and p is not f.node:
+                if isinstance(p, ast.If):
+                    r = _ndim1_test(p.test)
+                    if r and r[0] in params:
+                        in_body = nd.ast in p.body
+                        if (r[1] and in_body) or (not r[1] and not in_body):
+                            v = norm(nd.ast.value)
+                            if "reshape(" in v or ",1)" in v or "[:,None]" in v:
+                                lifted[nd.ast.targets[0].id] = r[0]
+                p = getattr(p, "_parent", None)
+        if not lifted:
+            continue
+        # names derived from a lifted array that are returned: the returned names
+        for nd in cfg.simple_nodes():
+            if nd.kind != STMT or not isinstance(nd.ast, ast.Return) or nd.ast.value is None:
+                continue
+            v = nd.ast.value
+            src = set(lifted.values())
+            construct = f"{f.short}: {stmt_key(nd.ast)}"
+            ok = False
+            if isinstance(v, ast.IfExp):
+                r = _ndim1_test(v.test)
+                if r and r[0] in src:
+                    flat = v.body if r[1] else v.orelse
+                    ok = any(k in norm(flat) for k in (".flatten()", ".ravel()", "[:,0]", ".reshape(-1)", "squeeze("))
+            else:
+                p = getattr(nd.ast, "_parent", None)
+                while p is not None and p is not f.node:
+                    if isinstance(p, ast.If):
+                        r = _ndim1_test(p.test)
+                        if r and r[0] in src:
+                            in_body = nd.ast in p.body
+                            one_d = (r[1] and in_body) or (not r[1] and not in_body)
+                            flat = any(k in norm(v) for k in (".flatten()", ".ravel()", "[:,0]", ".reshape(-1)", "squeeze("))
+                            ok = flat if one_d else True
+                    p = getattr(p, "_parent", None)
+                if not ok:
+                    # a return following `if rhs.ndim == 1: return x.flatten()` handles the 2-D case
+                    prev = getattr(nd.ast, "_parent", None)
+                    sibs = prev.body if prev is not None and hasattr(prev, "body") and nd.ast in getattr(prev, "body", []) else []
+                    i = sibs.index(nd.ast) if nd.ast in sibs else -1
+                    if i > 0 and isinstance(sibs[i - 1], ast.If):
+                        r = _ndim1_test(sibs[i - 1].test)
+                        if r and r[0] in src and r[1] and any(isinstance(x, ast.Return) for x in sibs[i - 1].body):
+                            ok = True
+            # returns that do not involve the lifted data at all (delegation) are not judged
+            names = {x.id for x in ast.walk(v) if isinstance(x, ast.Name)}
+            derived = set(lifted)
+            changed = True
+            while changed:
+                changed = False
+                for n2 in ast.walk(f.node):
+                    if isinstance(n2, ast.Assign) and isinstance(n2.targets[0], ast.Name) and n2.targets[0].id not in derived and \
+                            any(isinstance(x, ast.Name) and x.id in derived for x in ast.walk(n2.value)) and \
+                            any(k in norm(n2.value) for k in ("zeros_like", "copy()", "zeros(")):
+                        derived.add(n2.targets[0].id)
+                        changed = True
+            if not (names & derived) and not any(s in names for s in ("x", "sol")):
+                continue
+            if ok:
+                col.ok(where_of(f), f.rel, line_of(nd.ast), construct, f"1-D lift of '{sorted(src)[0]}' undone under the same test")
+            else:
+                col.bad(where_of(f), f.rel, line_of(nd.ast), construct,
+                        f"'{sorted(src)[0]}' is lifted to a column when it is 1-D, but this return does not undo the lift under "
+                        f"the same test: a 1-D right-hand side gets a 2-D solution (or a block one gets flattened)")
